@@ -33,6 +33,8 @@ enum Op {
     U32,
     U64,
     Fill(usize),
+    /// fill_bytes into a destination that starts `off` bytes after an 8-byte boundary
+    FillAt(usize, usize),
     Jump,
     LongJump,
 }
@@ -43,6 +45,7 @@ impl Op {
             Op::U32 => "u32".into(),
             Op::U64 => "u64".into(),
             Op::Fill(n) => format!("f{}", n),
+            Op::FillAt(n, off) => format!("f{}@{}", n, off),
             Op::Jump => "j".into(),
             Op::LongJump => "lj".into(),
         }
@@ -100,6 +103,12 @@ fn apply<T: RngCore + Jumps>(g: &mut T, op: Op, h: &mut Fnv) {
             let mut b = vec![0u8; n];
             g.fill_bytes(&mut b);
             h.bytes(&b);
+        }
+        Op::FillAt(n, off) => {
+            let mut backing = vec![0u64; (n + off) / 8 + 2];
+            let bytes: &mut [u8] = unsafe { std::slice::from_raw_parts_mut(backing.as_mut_ptr() as *mut u8, backing.len() * 8) };
+            g.fill_bytes(&mut bytes[off..off + n]);
+            h.bytes(&bytes[off..off + n]);
         }
         Op::Jump => g.do_jump(),
         Op::LongJump => g.do_long_jump(),
@@ -162,7 +171,7 @@ fn corpus_aux<T: RngCore + SeedableRng + Jumps>(name: &str, aux: &[(String, Stri
 }
 
 fn corpus_type<T: RngCore + SeedableRng + Jumps>(name: &str, seed_len: usize, block_words: usize, word_bytes: usize, depth: usize, vseed: u64, out: &mut Vec<String>) {
-    let mut alphabet = vec![Op::U32, Op::U64, Op::Fill(0), Op::Fill(3), Op::Fill(5), Op::Fill(9), Op::Fill(17)];
+    let mut alphabet = vec![Op::U32, Op::U64, Op::Fill(0), Op::Fill(3), Op::Fill(5), Op::Fill(9), Op::Fill(17), Op::FillAt(13, 1), Op::FillAt(8197, 3)];
     if block_words > 0 {
         alphabet.push(Op::Fill(block_words * word_bytes - 3));
     }
